@@ -105,6 +105,8 @@ def run(ctx: Ctx) -> None:
             t = {'name': 'root', 'children': [t]}
         trees.append(('random', t, None))
     srcs = {'gen_%d' % i: progen.gen_program(rnd, rnd.randint(1, 2)).src for i in range(ctx.n(25, 600) * scale)}
+    import shapes
+    srcs.update(shapes.ALL)
     sess = tsession.Session(srcs)
     lark_roots = {}
     for name in list(srcs) + (['example.FW.string'] if not ctx.thorough else ['example.FW.string', 'example.json', 'rogw.tranp.compatible.libralies.classes']):
@@ -230,6 +232,29 @@ def run(ctx: Ctx) -> None:
     ctx.correspond('finder_cache_queries', IMPORTS, 'entry * list str * list (str * option (option (list nat))) * list (str * list str * option (list str))',
                    test, all_cases, all_raw, prelude, shard=10)
     ctx.extra['correspondence_queries'] = nq
+
+    # ---- ancestor queries: the answer is a function of (path, tag), whatever was asked before ------
+    import re as _re
+    for name in list(srcs)[:ctx.n(12, 200)]:
+        ep, nodes, root_entry = lark_roots[name]
+        paths = [n.full_path for n in ep.procedural()]
+        for via in rnd.sample(paths, min(len(paths), ctx.n(12, 80))):
+            elems = via.split('.')
+            tags = [_re.sub(r'\[\d+\]$', '', e) for e in elems]
+            asked = list(dict.fromkeys(tags))
+            rnd.shuffle(asked)
+            for tag in asked[:4]:
+                k = max(i for i, t in enumerate(tags) if t == tag)       # the nearest one, the node itself included
+                want = '.'.join(elems[:k + 1])
+                ctx.evaluations += 1
+                try:
+                    got = nodes.ancestor(via, tag).full_path
+                except Exception as e:
+                    got = 'ERR ' + type(e).__name__
+                if got != want:
+                    ctx.violation('ancestor', 'Nodes.ancestor(path, tag) is not the nearest entry with that tag on the path (it depends on earlier queries or picks another entry)',
+                                  dict(input=dict(kind='ancestor', source=srcs.get(name), via=via, tag=tag, asked_before=asked[:asked.index(tag)]), oracle_result=want, impl_result=got))
+                    break
 
     # ---- resolution order independence on real node resolvers ------------------------------------
     perms = ctx.n(3, 20)
